@@ -61,6 +61,24 @@ def class_tests_signed(expr, var):
     return list(rec(expr, True))
 
 
+def signed_subterms(expr, pred):
+    """(node, positive) for every sub-term of the boolean expression ``expr`` satisfying ``pred``; ``positive`` is False
+    under an odd number of enclosing ``not``.  (and/or keep polarity; other operators are opaque.)"""
+    out = []
+
+    def rec(e, pos):
+        if pred(e):
+            out.append((e, pos))
+            return
+        if isinstance(e, ast.UnaryOp) and isinstance(e.op, ast.Not):
+            rec(e.operand, not pos)
+        elif isinstance(e, ast.BoolOp):
+            for v in e.values:
+                rec(v, pos)
+    rec(expr, True)
+    return out
+
+
 def raises_unconditionally(body):
     """True when the statement list ends in a raise on every path (shallow)."""
     if not body:
